@@ -198,6 +198,21 @@ theorem shared_writes_reviewed :
     (unguardedGlobalWrites.filter fun (_, _, _, reach) => reach) = [] := by
   decide
 
+/-- every access — READS included — to a package-level variable that is written under a held `Lock()` happens under a
+    held `Lock()` too (outside `init`); the guarded variables are the reviewed ones.  Narrowing the locked region of
+    `warnObsoleteVersion` so that `slices.Contains` reads `versionWarning` unlocked changes this regenerated fact. -/
+theorem guarded_vars_always_locked :
+    lockGuardedVars = ["loader.versionWarning"] ∧ unguardedAccessesOfGuardedVars = [] := by
+  decide
+
+/-- no function hands out a package-level variable (or a part, an alias or the address of one) as its result: nobody
+    outside the writers listed in `globalWrites` can store through it.  `globalWrites` itself now also lists stores
+    through LOCAL ALIASES of a package-level variable (`t := G; t[k] = v`, `p := &G; (*p)[k] = v`, `for _, x := range G`)
+    and stores made by a callee that is handed the variable (`f(G)` with `f` — transitively — storing through that
+    parameter, `sort.Strings(G)` …), so `shared_writes_reviewed` speaks about those as well. -/
+theorem no_global_escapes_by_return : globalsReturned = [] := by
+  decide
+
 /-- the statement order the model's initial state assumes (the caller reads `newProject.Services` before the collector
     goroutine exists, two `eg.Go` sites) is the order of the source now -/
 theorem fanout_model_order_is_the_sources : fanoutFieldReadPrecedesSpawn = true := by decide
